@@ -1,27 +1,27 @@
 # Table of claimed checks; exec'd by tools_manifest.py.
 check("C02", "exploration", "runtime differential monitor: translate_slice vs translate_reader under scheduled short reads",
-      "Held on every (slice run, reader run) pair executed: millions of pairs per run over generated valid streams, mutants, splices, random bytes and EVERY token sequence up to length 4 (quick) / 5 (thorough) of each format's alphabet, under one-byte, fixed, random and boundary-cut read schedules. A finite exploration of an unbounded input space: exhaustive only for the short token sequences.",
+      "Held on every (slice run, reader run) pair executed: millions of pairs per run over generated valid streams, mutants, splices, random bytes and EVERY token sequence up to length 4 (quick) / 5 (thorough) of each format's alphabet, under one-byte, fixed, random and boundary-cut read schedules, plus large valid streams (50-1500 documents, up to 2 MiB) under fixed(8191/8192/8193/4096/13), whole and random schedules. A finite exploration of an unbounded input space: exhaustive only for the short token sequences.",
       "Trusts the harness's scheduling reader (never returns 0 early, never over-fills) and catch_unwind; compares verdict class, output bytes and prefix-comparability, not error text.",
       "DESIGN.md 3/C02")
 check("C01", "exploration", "runtime oracle: independent reader of the target format applied to xt's output for generated documents x hostile spellings",
-      "Held on every translation executed (about 10^6 per quick run, 5*10^7 thorough): generated common-model documents aimed at the hostile classes (type look-alike strings, YAML indicators, control/BOM/non-character/astral code points, integer boundaries of every width, 17-digit and special floats, depth to 64, MessagePack width thresholds) x 16 format pairs x 3 spellings x slice/scheduled reader x explicit/detected. Sampling of an unbounded space; no exhaustiveness claimed.",
+      "Held on every translation executed (about 10^6 per quick run, 5*10^7 thorough): generated common-model documents aimed at the hostile classes (type look-alike strings, YAML indicators, control/BOM/non-character/astral code points, integer boundaries of every width, 17-digit and special floats, depth to 64, MessagePack width thresholds; every 150th document a heavy one: 4 095..70 000 entries or tens of KiB of multi-byte text) x 16 format pairs x 3 spellings x slice/scheduled reader x explicit/detected. Sampling of an unbounded space; no exhaustiveness claimed.",
       "Trusts the harness's independent readers (hand-written JSON/MessagePack decoders, libyaml events + own YAML 1.2 core schema, toml_edit walk) and spellers, cross-validated at start-up; libyaml's scanner is shared with xt. TOML order is accepted if it is a stable partition by table-ness (the toml crate's writer order) or the identity.",
       "DESIGN.md 3/C01")
 check("C03", "exploration", "runtime monitor: writer byte log of one Translator over call histories vs per-document concatenation, plus framing by the independent target reader",
-      "Held on every history executed (4*10^4 quick, 1.5*10^6 thorough): N in {0..5,17,300} documents spread over 1-4 calls in mixed source formats and supply modes with every separator style the source allows, documents padded to straddle 8 KiB/16 KiB boundaries, targets JSON/MessagePack/YAML.",
+      "Held on every history executed (4*10^4 quick, 1.5*10^6 thorough): N in {0..5,17,300} documents spread over 1-4 calls in mixed source formats and supply modes with every separator style the source allows, documents padded to straddle 8 KiB/16 KiB boundaries, targets JSON/MessagePack/YAML; plus 400 (quick) / 8 000 (thorough) invocations of the release binary over 2-4 input files in mixed formats compared with separate invocations per file.",
       "The single-document translation of a value is taken from a conventional spelling of the same value in the same source format; framing is judged by the harness's readers (YAML: explicit document start reported by libyaml).",
       "DESIGN.md 3/C03")
 check("C06", "exploration", "runtime self-differential: fixed point xt(B->B)(xt(A->B)(x)) and round trip via B against xt(A->A)(x)",
-      "Held on every chain executed (about 10^6 quick): common-model documents x 16 ordered pairs x both clauses with slice/reader chosen per hop, plus extension documents (binary, float32, non-finite floats, non-string keys, TOML date-times) for the fixed-point clause.",
+      "Held on every chain executed (about 10^6 quick): common-model documents x 16 ordered pairs x both clauses with slice/reader chosen per hop, plus extension documents (binary, float32, non-finite floats, non-string keys, TOML date-times) for the fixed-point clause, and a heavy document (thousands of entries / tens of KiB) every 300th case under whole / 8 KiB / 16 KiB read schedules.",
       "No reference implementation; xt is compared with itself, so a defect shared by both hops is invisible here (C01 covers values).",
       "DESIGN.md 3/C06")
 check("C08", "exploration", "runtime monitor over call histories: writer byte log + Result of each call on a Translator(to=TOML) against the invariant and mandated refusals",
-      "Held on every history executed (4*10^4 quick, 10^6 thorough): 1-3 calls x 0-3 documents, every root type, null / oversized integer / non-string key / binary planted at random paths, hostile keys, all four sources, slice/reader, short-write writers.",
+      "Held on every history executed (4*10^4 quick, 10^6 thorough): 1-3 calls x 0-3 documents, every root type, null / oversized integer / non-string key / binary planted at random paths, hostile keys, all four sources, slice/reader, short-write writers; plus 400 / 8 000 invocations `xt -t toml` over 1-3 inputs judged by the CLI reference model and the TOML reader.",
       "toml_edit parses the output; null keys, other non-string keys, binary and non-finite floats may be accepted or refused; after a refused first document the fate of later ones is left open.",
       "DESIGN.md 3/C08")
 check("C10", "exploration", "runtime monitor: detect hook and detected-vs-explicit differential on xt's own output",
       "Held on every output examined (4*10^4 quick): collection-rooted documents with detection-hostile first keys x 4 output formats x one/many documents, detection observed on a slice and under 3 read schedules, then xt(None->X) vs xt(F->X).",
-      "TOML's two exceptions are decided by the harness's own JSON reader and libyaml-event reader. Empty-table TOML output (zero bytes) is skipped.",
+      "TOML's two exceptions are decided by the harness's own JSON reader and libyaml-event reader. The empty text written for an empty table must be recognised as TOML too.",
       "DESIGN.md 3/C10")
 check("C09", "exploration", "runtime monitor: detect hook + detected-vs-explicit differential on scheduled readers; reference model of the rewindable input handle over all short operation programs",
       "Held on every execution: (a,b) 2.4*10^4 inputs quick / 8*10^5 thorough (mixed corpus plus inputs aimed at each detection trial) x slice + 4 read schedules; (d) bounded-exhaustive: EVERY program of up to 3 (quick) / 4 (thorough) tokens {new borrow, read(n), prefix(n)} x every data size 0..6 x EVERY chunking x both ways of taking ownership (10^6..10^8 runs) against a non-deterministic reference model.",
@@ -40,11 +40,11 @@ check("C05", "exploration", "runtime monitor: shared logical clock between a pac
       "The memory constants are about 3x above the worst ratio measured on the pinned tree so that only growth with the stream can trip them; the harness's own buffers are excluded from the count; timing plays no role (logical clock).",
       "DESIGN.md 3/C05")
 check("C07", "exploration", "runtime differential against the UTF-8 text at translation level; exhaustive enumeration of code units at the re-encoder hook against a std-based reference decoder",
-      "Translation level: 10^4 (quick) generated YAML streams x encodings x BOM x slice/reader x explicit/detected. Re-encoder level: complete enumeration in every run of all UTF-16 units, all 1 048 576 surrogate pairs, all 1 112 064 UTF-32 scalars, both byte orders, BOM/no BOM, with varied input/output buffer sizes (2 variants quick, 11 thorough), plus every surrogate value in each ill-formed context, truncated units and out-of-range UTF-32 values.",
+      "Translation level: 10^4 (quick) generated YAML streams x encodings x BOM x slice/reader x explicit/detected. Re-encoder level: complete enumeration in every run of all UTF-16 units, all 1 048 576 surrogate pairs, all 1 112 064 UTF-32 scalars, both byte orders, BOM/no BOM, with varied input/output buffer sizes (2 variants quick, 11 thorough), plus EVERY ordered pair of surrogate units that is not a well-formed pair (thorough: all 3 145 728; quick: 1/16 of the first units incl. the four boundary values x all second units), every surrogate value in five more ill-formed contexts, truncated units and out-of-range UTF-32 values; the enumeration runs in a child process so that an abort in the decoder is reported, not fatal.",
       "Exhaustive over characters, not over (character, buffer phase) combinations; reference decoder is char::decode_utf16 / char::from_u32.",
       "DESIGN.md 3/C07")
 check("C13", "exploration", "runtime monitor of the real release binary (exit status/signal, stdout, stderr; stdout a pipe, file or pseudo-terminal) against a CLI reference model, over all short argument vectors",
-      "Held on every process run executed (~1.1*10^4 quick): bounded-exhaustive over EVERY argument vector of length 0..2 (quick) / 0..3 (thorough) from a 48-token vocabulary, plus thousands of random longer vectors, with rotating stdin contents and stdout kinds.",
+      "Held on every process run executed (~1.1*10^4 quick): bounded-exhaustive over EVERY argument vector of length 0..2 (quick) / 0..3 (thorough) from a 48-token vocabulary, plus thousands of random longer vectors and every ordered pair of translatable inputs x every target, with rotating stdin contents and stdout kinds (pipe, file, pseudo-terminal, /dev/full).",
       "The model tokenises argv with the lexopt crate and applies the manual's rules; translations are predicted by the library in-process. Unreadable files cannot be produced (the harness runs as root).",
       "DESIGN.md 3/C13")
 check("C14", "exploration", "runtime differential: stdout/exit status of the real binary vs the library run in-process in the matching supply mode, over generated invocations",
@@ -60,7 +60,7 @@ check("C16", "fault_enumeration", "fault injection at the process boundary: cons
       "Relies on the kernel's EPIPE semantics; a run where the consumer could not get k bytes is inconclusive.",
       "DESIGN.md 3/C16")
 check("C18", "exploration", "runtime differential per nesting depth (slice vs readers, explicit and detected) in-process; wait status of debug and release binaries on their default stacks; MessagePack size calculator (hook) vs independent decoder",
-      "Held on every execution: 84 (format, shape, target) combinations x a +-6 window around each limit, 1000..1025, 10^4, 10^5 (10^6 thorough; YAML capped); ~900 binary runs (debug+release, file+stdin) at the limit, one beyond and far beyond; 2*10^4 size-calculator comparisons.",
+      "Held on every execution: 84 (format, shape, target) combinations, each nested around a scalar AND around an empty collection, x a +-6 window around each limit, 1000..1025, 10^4, 10^5 (10^6 thorough; YAML capped); ~900 binary runs (debug+release, file+stdin) at the limit, one beyond and far beyond; 2*10^4 size-calculator comparisons.",
       "YAML depth is capped for CPU reasons (quadratic); one shared limit per format is demanded across shapes and targets that accept the document at all.",
       "DESIGN.md 3/C18")
 check("C17", "other", "compiler sanitizers over a hostile workload: AddressSanitizer+LeakSanitizer build in sharded processes, Miri on a subset, valgrind memcheck on the release binary (thorough), conservation counters for Parser/Event lifetimes",
@@ -68,7 +68,7 @@ check("C17", "other", "compiler sanitizers over a hostile workload: AddressSanit
       "Sanitizers see only executed paths; red-zone tools miss intra-object overflows (Miri covers part of that on a smaller workload). Panics are an allowed outcome for contract-violating readers.",
       "DESIGN.md 3/C17")
 check("C04", "exploration", "crash-isolated worker processes (catch_unwind, default 8 MiB stack, address-space limit, end-of-input read counter, progress watchdog) over corpus and adversarial inputs; wait status of the real binaries; libFuzzer+AddressSanitizer in the thorough tier",
-      "Held on every run executed: 4*10^3 (quick) / 1.5*10^5 (thorough) cases x 5 source selections x 4 targets x slice/reader (1.6*10^5 / 6*10^6 translate calls); adversarial shapes: nesting to 5*10^3..10^5, declared lengths to 2^32-1 on every marker, alias bombs, lone anchors/aliases/tags, empty input, refused nodes, long scalars, numeric edges; ~100 debug/release binary runs; thorough adds 10 minutes x 16 forks of coverage-guided fuzzing under ASan.",
+      "Held on every run executed: 4*10^3 (quick) / 1.5*10^5 (thorough) cases x 5 source selections x 4 targets x slice/reader (1.6*10^5 / 6*10^6 translate calls); adversarial shapes: nesting to 5*10^3..10^5 (MessagePack always 10^5), declared lengths to 2^32-1 on every marker, alias bombs, lone anchors/aliases/tags, empty input, refused nodes, long scalars, numeric edges; ~100 debug/release binary runs; thorough adds 10 minutes x 16 forks of coverage-guided fuzzing under ASan.",
       "'Never loops forever' is decided only up to a budget (120 s without progress in a batch, then 900 s alone); a dead worker is attributed to the case it announced.",
       "DESIGN.md 3/C04")
 
